@@ -27,7 +27,9 @@ CASES = {"quick": 6400, "thorough": 150000}
 
 def strategy(tier):
     s1 = st.fixed_dictionaries({"stratum": st.just(1), "prog": gen_prog.programs(max_stmts=25), "gaps": st.lists(st.integers(0, 3), min_size=1, max_size=5)})
-    return st.one_of(gen_ssb.ssbscript_domain(), gen_ssb.ssbscript_domain(), gen_ssb.free_graphs(), s1)
+    from vf.core import weighted
+
+    return weighted((2, gen_ssb.ssbscript_domain()), (1, gen_ssb.free_graphs()), (1, s1))
 
 
 def materialise(case, stt):
